@@ -168,28 +168,20 @@ Definition pump_oracle (ms : list (move * outcome)) : bool := o_ok (fold_left os
 (* pool policies for the pointer model: the real choice of sync.Pool is not observable *)
 Definition pol_reuse (n : nat) (q : queue) : pick := PPool 0.
 Definition pol_mixed (n : nat) (q : queue) : pick :=
-  match Nat.modulo n 3 with 0 => PFresh | 1 => PPool (length (pool q) - 1) | _ => PPool 0 end.
+  match n with 0 => PFresh | _ => if Nat.even n then PPool 0 else PPool (length (pool q) - 1) end.
+(* the policies look at a small cyclic counter (a fresh node every 41st operation keeps the model heap small) *)
+Definition tick (n : nat) : nat := if n =? 40 then 0 else S n.
 
 Fixpoint qcheck (pol : nat -> queue -> pick) (n : nat) (q : queue) (ops : list qobs) : bool :=
   match ops with
   | [] => true
-  | QE x :: r => qcheck pol (S n) (enq x (pol n q) q) r
-  | QD v :: r => match deq q with Some (w, q') => Z.eqb v w && qcheck pol (S n) q' r | None => false end
-  | QH v :: r => Z.eqb v (headv q) && qcheck pol (S n) q r
-  | QM b :: r => Bool.eqb b (emit q) && qcheck pol (S n) q r
+  | QE x :: r => qcheck pol (tick n) (enq x (pol n q) q) r
+  | QD v :: r => match deq q with Some (w, q') => Z.eqb v w && qcheck pol (tick n) q' r | None => false end
+  | QH v :: r => Z.eqb v (headv q) && qcheck pol (tick n) q r
+  | QM b :: r => Bool.eqb b (emit q) && qcheck pol (tick n) q r
   | QDcrash :: _ => match deq q with None => true | Some _ => false end
   end.
-(* the specification: a list *)
-Fixpoint qspec (l : list Z) (ops : list qobs) : bool :=
-  match ops with
-  | [] => true
-  | QE x :: r => qspec (l ++ [x]) r
-  | QD v :: r => match l with w :: l' => Z.eqb v w && qspec l' r | [] => false end
-  | QH v :: r => Z.eqb v (hd 0%Z l) && qspec l r
-  | QM b :: r => Bool.eqb b (negb (is_nil l)) && qspec l r
-  | QDcrash :: _ => false          (* the harness only dequeues when something was enqueued and not yet dequeued *)
-  end.
-(* the list spec with an O(1) append: front list + reversed back list (same answers, used for long histories) *)
+(* the specification: a FIFO list, kept as front list + reversed back list so that long histories stay linear *)
 Fixpoint qspec2 (f b : list Z) (ops : list qobs) : bool :=
   match ops with
   | [] => true
